@@ -176,7 +176,11 @@ fn sweep(ctx: &Ctx, label: &str, names: &[PoolName], k: usize, params: &TreePara
                     let refs: Vec<&DocEntry> = h.iter().collect();
                     acc.0 += 1;
                     if let Ok(el) = run_history_rendering(&refs) {
-                        let text = subject::render(&el, Preset::QuickXml, false);
+                        // a rendering that panics is C07's business; nothing can be said about names then
+                        let text = match subject::guarded(|| subject::render(&el, Preset::QuickXml, false)) {
+                            Ok(t) => t,
+                            Err(_) => continue,
+                        };
                         if acc.1.insert(fnv(&text)) {
                             let vs = judge(&refs, &text, rank);
                             ctx.report_all(vs);
@@ -230,6 +234,7 @@ pub fn run(ctx: &Ctx) {
         sweep(ctx, "separator-path names", &set, 4, &TreeParams { min_nodes: 3, max_nodes: 4, max_decorated: 0, root_from_subset: false, shard: (0, 1) });
     }
     sweep(ctx, "adversarial pool, 2-subsets", &adv, 2, &TreeParams { min_nodes: 1, max_nodes: ctx.tier.pick(3, 4), max_decorated: 1, root_from_subset: false, shard: (0, 1) });
+    sweep(ctx, "adversarial pool, 2-subsets, 4 nodes, undecorated", &adv, 2, &TreeParams { min_nodes: 4, max_nodes: 4, max_decorated: 0, root_from_subset: false, shard: (0, 1) });
     deep_chains(ctx);
     ctx.set(
         "rule",
@@ -264,6 +269,9 @@ pub fn replay(ctx: &Ctx, case: &Value) {
 /// nesting chains up to depth 150: every level a name of its own, two alternating names, one name
 fn deep_chains(ctx: &Ctx) {
     let max_depth = 150u64;
+    // depths are visited in ascending order; once a depth shows a violation the deeper ones are
+    // skipped (a naming defect that grows with depth can make very deep renderings huge)
+    let found = std::sync::atomic::AtomicBool::new(false);
     let res = par_for(
         max_depth * 3,
         ctx.threads,
@@ -271,6 +279,9 @@ fn deep_chains(ctx: &Ctx) {
         Some(ctx.deadline),
         |_| 0u64,
         |acc, i| {
+            if found.load(std::sync::atomic::Ordering::Relaxed) {
+                return;
+            }
             let depth = (i / 3 + 1) as usize;
             let name = |level: usize| match i % 3 {
                 0 => format!("e{}", level),
@@ -292,8 +303,13 @@ fn deep_chains(ctx: &Ctx) {
             let refs = [&d];
             *acc += 1;
             if let Ok(el) = run_history(&refs) {
-                let text = subject::render(&el, Preset::QuickXml, false);
-                ctx.report_all(judge(&refs, &text, (1 << 55) | i));
+                if let Ok(text) = subject::guarded(|| subject::render(&el, Preset::QuickXml, false)) {
+                    let vs = judge(&refs, &text, (1 << 55) | i);
+                    if !vs.is_empty() {
+                        found.store(true, std::sync::atomic::Ordering::Relaxed);
+                    }
+                    ctx.report_all(vs);
+                }
             }
         },
     );
